@@ -291,10 +291,14 @@ func finish(o *corr.Out, sc *scenario) {
 	o.Explore(sc.request(), len(sc.acts) >= 3)
 	// trace inclusion: the protocol events of each manager of this scenario must be accepted by the
 	// Lean checker model (Drpc/Manager/Proto.lean); one correspondence case per manager
-	for _, tr := range TakeEvents() {
+	who := TakeEventsWho()
+	for k, tr := range TakeEvents() {
 		if len(tr) == 0 {
 			continue
 		}
+		// … and must be a trace of the atomic-step manager model (Drpc/Manager/Sys.lean): some
+		// interleaving of its threads reports the same events from the same goroutines
+		o.Case(fmt.Sprintf("mgrsys soft=%s ev=%s", b01(sc.w.Cfg.Soft), strings.Join(who[k], ",")), fmt.Sprintf("ok n=%d", len(tr)), len(tr) >= 4)
 		nontrivial := false
 		for _, e := range tr {
 			if strings.HasPrefix(e, "stream.new.begin") {
@@ -601,6 +605,8 @@ func famProbe(o *corr.Out, n int) {
 	r := o.Rand
 	famUpload(o, n/3+1)
 	famWaitingInvoke(o)
+	famCancelBeforeInvoke(o)
+	famPublishAfterRelease(o)
 	famLate(o, n/4+2)
 	type cs struct {
 		sends int
@@ -671,6 +677,8 @@ func famCancel(o *corr.Out, n int) {
 		}
 	}
 	famWaitingInvoke(o)
+	famCancelBeforeInvoke(o)
+	famPublishAfterRelease(o)
 	total := len(subsets) * 4
 	if n < total && !o.Thorough {
 		total = n * 2
@@ -819,6 +827,62 @@ func famWaitingInvoke(o *corr.Out) {
 		} else {
 			o.OracleOK("C06:probe-completes")
 		}
+		finish(o, sc)
+	}
+}
+
+// famCancelBeforeInvoke: the context of a unary RPC is cancelled after the stream was created and
+// before anything of it was written (Conn.Invoke marshals the request in between; here Marshal is
+// slow).  Afterwards the connection must serve a probe or report itself closed.
+func famCancelBeforeInvoke(o *corr.Out) {
+	for _, soft := range []bool{false, true} {
+		for _, first := range []bool{true, false} {
+			sc := &scenario{cfg: Config{Soft: soft}, class: "cancel-before-invoke"}
+			if !first {
+				sc.do("inv!u1!1!r1.s1:1.x!1!7")
+			}
+			sc.do("invp!u2!2!r1.s1:1.x!1!1")
+			sc.do("can!1")
+			ob := sc.do("mrel!u2")
+			if contains(lastPending(ob), "u2") {
+				o.Oracle("C04:cancel-unblocks", sc.request(), fmt.Sprintf("soft=%v invoke cancelled before its first write did not return: %s", soft, ob))
+			} else {
+				o.OracleOK("C04:cancel-unblocks")
+			}
+			probe(o, sc, "C06:probe-completes", false)
+			finish(o, sc)
+		}
+	}
+}
+
+// famPublishAfterRelease: soft cancel; the context of RPC 1 is cancelled while its creator sits
+// between handing the new stream to manageStreams and publishing it (sbuf.Set); the manager
+// releases the stream semaphore, RPC 2 starts, then the creator of RPC 1 runs on.  RPC 2 must
+// complete (or the connection report itself closed).
+func famPublishAfterRelease(o *corr.Out) {
+	for _, early := range []bool{false, true} {
+		sc := &scenario{cfg: Config{Soft: true}, class: "publish-after-release"}
+		sc.do("flow!0")
+		sc.do("hpark!n1")
+		sc.do("new!n1!1!rA.x!1")
+		sc.do("can!1")
+		pumpAll(sc)
+		sc.do("inv!u2!2!r1.s1:1.x!1!2")
+		if early {
+			pumpAll(sc)
+		}
+		sc.do("prel!n1")
+		pumpAll(sc)
+		ob := sc.do("flow!1")
+		res := sc.results()["u2"]
+		closed := strings.HasSuffix(ob, "X1]")
+		if res == "ok:2/2/0/1" || (closed && res != "") {
+			o.OracleOK("C06:next-rpc-completes")
+		} else {
+			o.Oracle("C06:next-rpc-completes", sc.request(), fmt.Sprintf("rpc 2 result=%q connClosed=%v; blocked: %s", res, closed,
+				strings.Join(sc.w.LastObs().Census, " | ")))
+		}
+		probe(o, sc, "C06:probe-completes", false)
 		finish(o, sc)
 	}
 }
